@@ -145,6 +145,9 @@ def check(ctx):
     ok = check_property_proofs(ctx, "C04")
     if not ok:
         ctx.violation("proof obligation for C04 no longer checks", {"broken": [n for n, o, _ in ctx.obligations if not o]}, found_input=False)
+    # what the generator emits for this property's constructs (trailing-skip type / stack built-ins and slices), both AST paths
+    from .. import gencore
+    gencore.v1(ctx, 150 if ctx.tier == "quick" else 1500, which=("opt", "raw"))
     envs, run = core.core_run(ctx.tier)
     core.scan(ctx, envs, run, ("misc", "uni"), make_t3(envs), nontrivial, "full parse off its spec")
     derive_corpus(ctx)
